@@ -76,7 +76,7 @@ def run(v, tier, seed):
     iters = 3000 if tier == "quick" else 60000
     with cf.ThreadPoolExecutor(max_workers=6) as ex:
         jobs = [ex.submit(ref_mc, 2, 3)] + ([ex.submit(ref_mc, 3, 3)] if tier == "thorough" else [])
-        pools = [ex.submit(pool, n, mp) for (n, mp) in ([(2, 0), (2, 1), (3, 2)] if tier == "quick" else [(2, 0), (2, 1), (2, 3), (3, 0), (3, 2), (3, 4)])]
+        pools = [ex.submit(pool, n, mp) for (n, mp) in ([(2, 0), (2, 1), (2, 3), (3, 2)] if tier == "quick" else [(2, 0), (2, 1), (2, 3), (3, 0), (3, 2), (3, 4)])]
         f_ex = ex.submit(explore, iters, 3 if tier == "quick" else 4, 14, 500 if tier == "quick" else 4000)
         for f in jobs:
             tag, r = f.result(); tot["states"] += r.distinct; tot["transitions"] += r.generated
